@@ -981,7 +981,12 @@ func (s *evmSim) settleAndCheck() {
 	s.mu.Unlock()
 	// injected stalls (40 s), the callers' deadlines (15 s) and supervisor back-off must run out first
 	s.pump(s.now() + 70*time.Second)
-	// fresh messages for the incarnation that is running now
+	// part one: no new message arrives; whatever the running incarnation has pending must come out
+	// on its own as the head moves on (a later message must not be needed to wake the poller up)
+	if !s.settleRounds("quiet", 3) {
+		return
+	}
+	// part two: fresh messages for the incarnation that is running now, and a head jump
 	s.mu.Lock()
 	for i := 0; i < 2; i++ {
 		tx := s.addTx(0, int(s.prog.C("settle_level", 1))%64, i)
@@ -991,11 +996,19 @@ func (s *evmSim) settleAndCheck() {
 		tx.block = b
 		s.notify(tx, b, false)
 	}
-	incAtSettle := s.inc
 	s.mu.Unlock()
 	s.pump(s.now() + 2*time.Second)
+	s.settleRounds("fresh", int(s.prog.C("settle_jump", 3)))
+}
+
+// settleRounds advances the head (with one jump of `jump` blocks) past the depth of every pending
+// message and then checks exactly-once delivery for the running incarnation. It returns false
+// when the run should end (violation found or watcher restarted).
+func (s *evmSim) settleRounds(tag string, jump int) bool {
+	s.mu.Lock()
+	incAtSettle := s.inc
+	s.mu.Unlock()
 	poll := time.Duration(s.prog.C("poll_ms", 1000)) * time.Millisecond
-	jump := int(s.prog.C("settle_jump", 3))
 	for r := 0; r < 4 && !s.aborting; r++ {
 		s.mu.Lock()
 		n := 2
@@ -1003,7 +1016,7 @@ func (s *evmSim) settleAndCheck() {
 			n = jump
 		}
 		if r == 3 {
-			// the last rounds go past the depth of every pending message, one block at a time
+			// the last round goes past the depth of every pending message
 			need := uint64(0)
 			for _, tx := range s.txs {
 				for _, l := range tx.logs {
@@ -1024,7 +1037,7 @@ func (s *evmSim) settleAndCheck() {
 		s.mu.Unlock()
 		s.pump(s.now() + 3*poll + 500*time.Millisecond)
 		s.mu.Lock()
-		s.log.Add("settle round %d head=%d seen=%d parked=%d polls=%d inc=%d", r, s.head(), s.maxHeadServed, len(s.parked), s.reqs["blockByNumber"], s.inc)
+		s.log.Add("settle %s round %d head=%d seen=%d polls=%d inc=%d", tag, r, s.head(), s.maxHeadServed, s.reqs["blockByNumber"], s.inc)
 		s.mu.Unlock()
 		s.log.Cut("settle")
 	}
@@ -1032,7 +1045,7 @@ func (s *evmSim) settleAndCheck() {
 	defer s.mu.Unlock()
 	if s.inc != incAtSettle {
 		s.stats.Probe("watcher-restarted-during-settle")
-		return
+		return false
 	}
 	for _, tx := range s.txs {
 		if tx.deliveredInc != s.inc || tx.deliveredBlock == nil {
@@ -1054,14 +1067,17 @@ func (s *evmSim) settleAndCheck() {
 		case good && stays && n == 0 && tx.abandonLegit:
 			s.stats.Probe("abandoned-after-failing-for-the-whole-window")
 		case good && stays && n == 0:
-			s.violate("final-message-not-forwarded", "log seq=%d (level %d) in block %d stayed in its block, the watcher saw head %d, but the message was never handed over (head jumped by %d in one poll)",
-				lg.sequence, lg.level, tx.block.number, s.maxHeadServed, jump)
+			s.violate("final-message-not-forwarded", "log seq=%d (level %d) in block %d stayed in its block, the chain head is %d and the watcher has seen head %d, but the message was never handed over (settle part %q, head jump %d)",
+				lg.sequence, lg.level, tx.block.number, s.head(), s.maxHeadServed, tag, jump)
+			return false
 		case good && stays && n > 1:
 			s.violate("forwarded-twice", "log seq=%d handed over %d times", lg.sequence, n)
+			return false
 		case good && stays:
 			s.stats.Probe("final-message-forwarded-once")
 		}
 	}
+	return true
 }
 
 func (evmHarness) Gen(seed uint64, prop, tier string) *simkit.Program {
